@@ -1,5 +1,6 @@
 import TieD.RestrictProofs
 import TieD.CountProofs
+import TieD.InitProofs
 import DsProofs.Properties.C10
 /-!
 # TIED — the array code of the decision diagrams AS IT IS WRITTEN NOW
@@ -14,6 +15,10 @@ import DsProofs.Properties.C10
 * `TIED_modelcount`: on a diagram over the clipped values of a domain `D`, of regular shape, whose last-level children (reachable through active nodes) are
   `< diameter` (`ChildBound`: NumPy would raise IndexError otherwise; a proved counterexample shows the hypothesis is needed), the translated dynamic programme of
   `ADD.modelcount` returns the model's `Diagram.modelcount` — to which `C10_modelcount_aval` (histogram of the evaluated value over all assignments) applies.
+* `TIED_init`: whenever the model's `Oracle.build` succeeds, the translated `ShapleyOracle.__init__` (boundary rows then `None`; for each, the rows `tt` with
+  `distances[t] >= distances[tt]` — ties included, all rows for `None` — add their one-hot label tally at `locations[tt]` to the `with` / `without` copy of the compiled
+  diagram; for a real boundary row the `(unit, 0)` edges of its units are overwritten with the invalid value) fills the two dictionaries with exactly the model's
+  boundary diagrams, keyed in order.  The diagram methods `update` / `get_update_location` are the model's (parameters of the translated code).
 * `TIED_query`: `ShapleyOracle.query` is the composition restrict(with, 1), restrict(without, 0), sum, `adder[:, :, 1] += atype(1, 0…, 0…)`, modelcount, zipped
   with the domain — exactly the model's `Oracle.query` (for any implementation of the four diagram methods that agrees with the model's where the model succeeds).
 -/
@@ -36,6 +41,17 @@ theorem TIED_modelcount (D : Dom) (d : Diagram (AVal D)) (hs : Shape d) (hw : d.
         (unitsI d.units) (d.root : Int) (nodesOf d.levels) (childOf d.levels) (adderOf d.levels) (d.diameter : Int) (d.C : Int)
       = d.modelcount AVal.sub? (D.vecs.map (AVal.clip D)) :=
   modelcount_eq D d hs hw hd hroot hb
+
+theorem TIED_init (D : Dom) (c : ℕ) (p : Prov.P) (labels : List ℕ) (dist : List ℚ) (b : Built D)
+    (hb : build D c p labels dist = .ok b) :
+    GenD.oracle_init (δ := Diagram (AVal D)) (ν := AVal D) (ℓ := List (ℕ × ℕ × ℕ)) (α := ℚ)
+        (fun d loc v inc => d.update loc v inc)
+        (fun d u => match d.getUpdateLocation [(u.toNat, 0)] with | .ok loc => loc | .error _ => [])
+        (fun t w wo => tallyVal D t.toNat (w.map Int.toNat) (wo.map Int.toNat)) (none : AVal D)
+        (fun t => (rowUnits (p.data.getD t.toNat [])).map (fun u : ℕ => (u : Int)))
+        b.base.add b.base.locs (p.data.length : Int) (c : Int) (labels.map (fun k : ℕ => (k : Int))) dist
+      = ((boundaryKeys p.data.length).zip b.withs, (boundaryKeys p.data.length).zip b.withouts) :=
+  oracle_init_eq D c p labels dist b hb
 
 /-- `ShapleyOracle.query` as written = the model's `Oracle.query` (boundary `None` is the last cached diagram) -/
 theorem TIED_query (D : Dom) (c R unit : ℕ) (b : Built D) (bw bwo : Option ℕ) (counts : List Int)
